@@ -95,7 +95,9 @@ class FlagList(Signature):
 
     @sdproperty
     def flags(self):
-        return self._flags
+        # algorithm ids this implementation has no name for (private/experimental 100..110, reserved values, ids
+        # assigned after RFC 4880) are kept and written back, but they are not offered as preferences
+        return [f for f in self._flags if isinstance(f, self.__flags__)]
 
     @flags.register(list)
     @flags.register(tuple)
@@ -111,7 +113,12 @@ class FlagList(Signature):
         if self.__flags__ is None:  # pragma: no cover
             raise AttributeError("Error: __flags__ not set!")
 
-        self._flags.append(self.__flags__(val))
+        try:
+            self._flags.append(self.__flags__(val))
+
+        except ValueError:
+            # "array of one-octet values" (RFC 4880 5.2.3.7 - 5.2.3.9): an id without a name is still a legal entry
+            self._flags.append(int(val))
 
     @flags.register(bytearray)
     def flags_bytearray(self, val):
@@ -123,7 +130,7 @@ class FlagList(Signature):
 
     def __bytearray__(self):
         _bytes = super(FlagList, self).__bytearray__()
-        _bytes += b''.join(self.int_to_bytes(b) for b in self.flags)
+        _bytes += b''.join(self.int_to_bytes(b) for b in self._flags)
         return _bytes
 
     def parse(self, packet):
